@@ -92,6 +92,13 @@ def run(tier, seed, out):
     out.states += st
     out.transitions += tr
     out.traces += len(recs)
+    def corrupt(r):      # a recorded integer result off by one
+        v = r["r"][0][0]
+        if r["e"]["t"] in ("Sum", "Product") and v.get("k") == "int" and len(r["r"][0]) == 1:
+            v["n"] += 1
+            return r
+        return None
+    out.extra["corrupted_records_rejected"] = kit.corruption_control("C02_Judge", "C02_Judge", recs, corrupt, wd)
     byid = {r["id"]: r for r in recs}
     nfail = 0
     for v in verdicts:
